@@ -30,10 +30,52 @@ static std::string names(const std::vector<Basic>& v, V)
    return out.empty() ? "-" : out;
 }
 
+// The algebra as a client translation unit sees it DURING STATIC INITIALISATION (this TU is linked before the library, so its
+// initialisers run first): every named accessor, decomposed and mapped back by name, must already answer as it does in main().
+namespace {
+   struct Early {
+      int checked = 0, bad = 0;
+      std::string first_bad;
+      Early()
+      {
+         impl::Lexicon lx;
+         const Lexicon& ilx = lx;
+         auto spec = [&](const char* what, Specifiers v) {
+            ++checked;
+            bool ok = false;
+            try {
+               auto names = ilx.decompose(v);
+               ok = names.size() == 1 and raw(ilx.specifiers(names[0])) == raw(v) and raw(v) != 0;
+            } catch (...) { ok = false; }
+            if (not ok) { if (bad++ == 0) first_bad = what; }
+         };
+         auto qual = [&](const char* what, Qualifiers v) {
+            ++checked;
+            bool ok = false;
+            try {
+               auto names = ilx.decompose(v);
+               ok = names.size() == 1 and raw(ilx.qualifiers(names[0])) == raw(v) and raw(v) != 0;
+            } catch (...) { ok = false; }
+            if (not ok) { if (bad++ == 0) first_bad = what; }
+         };
+#define SP(n) spec(#n, ilx.n());
+#define QU(n) qual(#n, ilx.n());
+         SP(export_specifier) SP(static_specifier) SP(extern_specifier) SP(mutable_specifier) SP(thread_local_specifier)
+         SP(register_specifier) SP(inline_specifier) SP(constexpr_specifier) SP(consteval_specifier) SP(virtual_specifier)
+         SP(abstract_specifier) SP(explicit_specifier) SP(friend_specifier) SP(typedef_specifier) SP(public_specifier)
+         SP(protected_specifier) SP(private_specifier) QU(const_qualifier) QU(volatile_qualifier) QU(restrict_qualifier)
+#undef SP
+#undef QU
+      }
+   };
+   const Early early;
+}
+
 int main(int argc, char** argv)
 {
    impl::Lexicon lx;
    const Lexicon& ilx = lx;
+   std::cout << "EARLY checked=" << early.checked << " bad=" << early.bad << " first=" << (early.first_bad.empty() ? "-" : early.first_bad) << '\n';
    if (argc > 1 and std::string(argv[1]) == "tables") {
       // Candidate names on stdin (one per line): every one the library accepts as a basic specifier / qualifier is a
       // row of its table.  (Not derived from decompose(~0): a value with bits outside the basis is not a union of names.)
